@@ -99,4 +99,40 @@ mod verif_c14_bitset {
         kani::cover!(which && a.len() == 1);
         kani::cover!(!which && a.len() == 2);
     }
+
+    //@harness fns=BitSet::compact,BitSet::compact_pages tier=quick timeout=900 bound="3 stored pages in any storage order (page_map index permutation symbolic), keep-count symbolic" note="compaction used by intersect / reversed_subtract: every kept page_map entry still points at the page it pointed at before, and the kept pages occupy indices 0..new_len (so the following resize cannot cut a live page)"
+    #[kani::proof]
+    #[kani::unwind(6)]
+    fn bitset_compact_keeps_page_identity() {
+        // three pages with distinct contents
+        let (v0, v1, v2): (u32, u32, u32) = (kani::any(), kani::any(), kani::any());
+        kani::assume(v0 < 512 && v1 < 512 && v2 < 512 && v0 != v1 && v1 != v2 && v0 != v2);
+        let mut p0 = BitPage::new_zeroes(); p0.insert(v0);
+        let mut p1 = BitPage::new_zeroes(); p1.insert(v1);
+        let mut p2 = BitPage::new_zeroes(); p2.insert(v2);
+        // page_map sorted by major, indices = any permutation of 0..3 (pages created in any order)
+        let (i0, i1, i2): (u32, u32, u32) = (kani::any(), kani::any(), kani::any());
+        kani::assume(i0 < 3 && i1 < 3 && i2 < 3 && i0 != i1 && i1 != i2 && i0 != i2);
+        let mut s = BitSet {
+            pages: vec![p0, p1, p2],
+            page_map: vec![PageInfo { major_value: 1, index: i0 }, PageInfo { major_value: 5, index: i1 }, PageInfo { major_value: 9, index: i2 }],
+            length: 3,
+        };
+        let vals = [v0, v1, v2];
+        let old_idx = [i0, i1, i2];
+        let new_len: usize = kani::any();
+        kani::assume(new_len <= 3);
+        s.compact(new_len);
+        let j: usize = kani::any();
+        let k: usize = kani::any();
+        kani::assume(j < new_len && k < new_len && j != k);
+        let nj = s.page_map[j].index as usize;
+        // kept pages are packed into the first new_len slots, distinct ...
+        assert!(nj < new_len);
+        assert!(s.page_map[k].index as usize != nj);
+        // ... and entry j still denotes the page it denoted before (the one holding vals[old_idx[j]])
+        assert!(s.pages[nj].contains(vals[old_idx[j] as usize]) && s.pages[nj].len() == 1);
+        kani::cover!(new_len == 2 && i0 == 2 && i1 == 0);
+        kani::cover!(new_len == 3 && i0 == 1);
+    }
 }
